@@ -206,6 +206,26 @@ pub fn run(ctx: &Ctx) {
             ctx.judge(Err(f));
         }
     }
+    // the lookup is also called with a registration known from elsewhere (the WASM binding and the aircraft database
+    // path do that); what the reverse lookup answers for an address may not depend on such a call having been made
+    // before. Addresses that aircraft_information has not been asked about yet in this process: first with a foreign
+    // registration, then the reverse lookup, judged by the same oracle as above.
+    {
+        let step = ctx.tier.pick(8usize, 1usize);
+        let sample: Vec<u32> = addrs.iter().map(|a| a ^ 1).filter(|a| addrs.binary_search(a).is_err()).step_by(step).collect();
+        let mut n = 0u64;
+        for (k, a) in sample.iter().enumerate() {
+            let foreign = ["D-AIMA", "N123AB", "HL7200", "F-GKXS", "JA8089", "ZZ"][k % 6];
+            let _ = catch(|| aircraft_information(&format!("{a:06x}"), Some(foreign)).map(|i| i.registration).map_err(|e| e.to_string()));
+            n += 1;
+            if let Err(f) = check_info(&bl, *a) {
+                ctx.judge(Err(Failure::new(format!("{}:after-a-call-that-supplied-a-registration", f.signature), format!("{} (after aircraft_information({a:06x}, Some({foreign:?})))", f.detail), json!({"kind": "info-history", "addr": a, "foreign": foreign}))));
+                break;
+            }
+        }
+        ctx.evals(n);
+        ctx.class_n("aircraft_information: reverse lookup right after a call that supplied a foreign registration", n);
+    }
     for a in [0xa00001u32, 0x840000, 0x71ba00, 0x3c6444, 0x380000] {
         ctx.sample(json!({"addr": format!("{a:06x}"), "registration": tail(a), "country": aircraft_information(&format!("{a:06x}"), None).ok().and_then(|i| i.country)}));
     }
@@ -236,6 +256,12 @@ pub fn replay(ctx: &Ctx, v: &Value) {
         }
         "info" => {
             ctx.judge(check_info(&bl, v["addr"].as_u64().unwrap_or(0) as u32));
+        }
+        "info-history" => {
+            let a = v["addr"].as_u64().unwrap_or(0) as u32;
+            let foreign = v["foreign"].as_str().unwrap_or("D-AIMA").to_string();
+            let _ = catch(|| aircraft_information(&format!("{a:06x}"), Some(&foreign)).map(|i| i.registration).map_err(|e| e.to_string()));
+            ctx.judge(check_info(&bl, a));
         }
         _ => {
             ctx.judge(check_addr(&bl, v["addr"].as_u64().unwrap_or(0) as u32).map(|_| ()));
